@@ -105,12 +105,41 @@ def check_claim(ctx, model):
                     # (an entry pushed earlier in this call may itself have been built from fee.info)
                     if any(led in o.proj for o in x) and all(led in o.proj or is_fee_info({o}) for o in x):
                         eq_edges[led] += eq
-    def filtered_by_same_asset(sv, ch, led):
+    def filtered_by_same_asset(sv, ch, led, site=None):
         """The update closure only ever sees entries that passed `.filter(|e| e.info == fee.info)`: the adapter call that
         takes this closure iterates a filter whose predicate returns exactly that comparison."""
         from ..mir import resolve_bool
         from ..guards import resolve as _res
+
+        def pred_is_same_asset(pv, fc, base_chain):
+            for po in pv.origins_of_operand(fc[1]["args"][1], at=pv.at_term(fc[0])):
+                if po.kind != "closure" or po.a not in model.fnsrc:
+                    continue
+                fv = model.view(po.a)
+                fch = tuple(base_chain) + ((pv.path, int(po.b.rsplit(":bb", 1)[1]), "closure"),)
+                for rb_ in fv.return_blocks():
+                    c = resolve_bool(fv, {"k": "copy", "pl": {"l": 0, "p": []}}, at=fv.at_term(rb_))
+                    if c.kind != "cmp" or c.op != "==" or c.b is None:
+                        continue
+                    at = cond_at(fv, c)
+                    oa = _res(model, fch, fv, fv.origins_of_operand(c.a, at=at), elems=True)
+                    ob = _res(model, fch, fv, fv.origins_of_operand(c.b, at=at), elems=True)
+                    for x, y in ((oa, ob), (ob, oa)):
+                        if is_fee_info(y) and x and all(o2.proj and o2.proj[-1] == "info" for o2 in x) and any(led in o2.proj for o2 in x) \
+                                and all(led in o2.proj or is_fee_info({o2}) for o2 in x):
+                            return True
+            return False
         if not ch:
+            # `for e in ledger.iter_mut().filter(|e| e.info == fee.info) { e.amount = .. }` in the handler itself
+            if site is None:
+                return False
+            sb_, st_ = site
+            with sv.opaque(r"Iterator>::filter$"):
+                recv = sv.origins_of_operand(st_["args"][0], at=sv.at_term(sb_))
+            for o in recv:
+                fc = call_of(sv, o)
+                if fc and mname(fc[1]).endswith("Iterator>::filter") and pred_is_same_asset(sv, fc, ()):
+                    return True
             return False
         pv = model.view(ch[-1][0])
         for cb_, cp_, ops_ in pv.closures_created():
@@ -144,7 +173,7 @@ def check_claim(ctx, model):
                                     return True
         return False
     for led, ss in (("available", sub_sites), ("claimed", add_sites)):
-        ok = bool(ss) and all((not ch and bool(eq_edges[led]) and v.edge_dominated(b, eq_edges[led])) or filtered_by_same_asset(sv, ch, led)
+        ok = bool(ss) and all((not ch and bool(eq_edges[led]) and v.edge_dominated(b, eq_edges[led])) or filtered_by_same_asset(sv, ch, led, (b, t))
                                for sv, ch, b, t in ss)
         ctx.ob("C09-D1", "%s|%s-updated-for-the-same-asset-only" % (CLAIM, led), ok,
                "every %s update is dominated by `entry.info == fee.info`: %s" % (led, ok), ss[0][0].where(ss[0][2]) if ss else v.where())
@@ -157,9 +186,15 @@ def check_claim(ctx, model):
             te = try_edges(v, fb)
             if te:
                 cont, brk, bblock, inner = te
-                for o in v.origins_of_operand(inner, at=v.at_term(bblock), taint=True):
+                ios = v.origins_of_operand(inner, at=v.at_term(bblock), taint=True)
+                for o in ios:
                     if o.kind == "call" and o.a.endswith("as std::iter::Iterator>::find"):
                         find_edges += cont
+                # ... or the Option is filled by a search loop over epoch.available (`if e.info == fee.info { found = Some(e); break }`)
+                if any(o.proj and "available" in o.proj and o.proj[-1] != "amount" for o in ios) and \
+                        not any(o.kind == "call" and o.a.endswith("Iterator>::find") for o in ios) and \
+                        any(o.kind == "call" and re.search(r"Option::(ok_or|ok_or_else|map|expect)$", o.a) for o in ios | v.origins_of_operand(inner, at=v.at_term(bblock))):
+                    find_edges += cont
         exists = bool(find_edges) and v.edge_dominated(sb, find_edges)
         before = bool(subs) and all(sb in v.reach_strict(b) for b, t in subs)
         ctx.ob("C09-D1", "%s|bounded-before-save" % CLAIM, exists and before,
@@ -169,7 +204,8 @@ def check_claim(ctx, model):
         cl = v.origins_of_operand(val, proj=("claimed",), at=v.at_term(sb), taint=True)
         ctx.ob("C09-D1", "%s|saved-epoch-carries-updates" % CLAIM,
                (any(o.kind == "call" and o.a.endswith("checked_sub") for o in av) or (sub_ok and any(ch for sv, ch, b, t in sub_sites)))
-               and any(o.kind == "call" and (o.a.endswith("checked_add") or o.a.endswith("checked_mul_floor")) for o in cl),
+               and (any(o.kind == "call" and (o.a.endswith("checked_add") or o.a.endswith("checked_mul_floor")) for o in cl)
+                    or (add_ok and any(ch for sv, ch, b, t in add_sites))),
                "saved epoch.available depends on checked_sub: %s; saved epoch.claimed depends on the reward: %s" % (
                    any(o.kind == "call" and o.a.endswith("checked_sub") for o in av), any(o.kind == "call" for o in cl)), v.where(sb))
     # payout
@@ -231,7 +267,11 @@ def check_claim_requires_available_entry(ctx, model):
                 src = v.origins_of_operand(c[1]["args"][0], at=v.at_term(c[0]), taint=True)
                 found = any(x.kind == "call" and re.search(r"Iterator>::(find|position|find_map)$", x.a) for x in src)
                 over_available = any(x.proj and "available" in x.proj for x in src)
-                if found and over_available:
+                # ... or an Option filled by a search loop: `Some(entry)` only for an entry of epoch.available
+                direct = v.origins_of_operand(c[1]["args"][0], at=v.at_term(c[0]))
+                searched = bool(direct) and any(x.proj and "available" in x.proj for x in direct | src) and not found and all(
+                    (x.proj and "available" in x.proj) or x.kind in ("const",) or (x.kind == "call" and x.a.endswith("Option::map")) for x in direct)
+                if (found or searched) and over_available:
                     edges += cont
     ok = bool(edges) and all(v.edge_dominated(b, edges) for b, _ in aggs)
     ctx.ob("C09-D6", "%s|reward-needs-an-available-entry" % CLAIM, ok,
